@@ -448,6 +448,10 @@ def case_strategy(draw, tier):
             cell["corner"] = draw(st.sampled_from(corner_opts))
             n = draw(st.integers(3, 10 if tier == "quick" else 14))
             cell["hist"] = [draw(st.integers(0, 1000)) for _ in range(n)]
+            if phases == "OWG" and cell["corner"] == "g":
+                # water above connate in the state handed to updateHysteresis (thousandths of the room left by the gas):
+                # the gas-oil hysteresis follows Sg alone, whatever the water saturation of the cell
+                cell["hist_w"] = [draw(st.sampled_from([0, 0, 0, 250, 600, 1000])) for _ in range(n)]
     if mode == "hysteps":
         case["threept"] = draw(st.booleans())
         flags = [f for f in HE_FLAGS if draw(st.integers(0, 2)) > 0]
@@ -781,6 +785,8 @@ class C15(Check):
                     labels.append("hysteps:identical")
                 sig += [case["threept"], sorted(case["flags"])]
             labels.append("hyst:model%d" % case["model"])
+            if any(any(c.get("hist_w") or []) for c in case["cells"]):
+                labels.append("hyst:gas-history-with-mobile-water")
             nrev = 0
             same = True
             for c in case["cells"]:
@@ -1161,10 +1167,14 @@ class C15(Check):
             # histories stay inside the table's saturation range (beyond its last row the drainage curve is flat,
             # i.e. a plateau, where the horizontal shift of the scanning curve is not unique)
             hmax = snmax if corner == "w" else min(snmax, fsat(c["ep"]["SGU"] if eps else reg["sg"][-1]))
-            for h in c["hist"]:
+            for hi, h in enumerate(c["hist"]):
                 sn = hmax * h / 1000.0
                 shy = sn if shy is None else max(shy, sn)
                 st_trip = point(ph, corner, s_of_sn(sn), swco)
+                hw = c.get("hist_w")
+                if hw and ph == "OWG" and corner == "g" and hw[hi]:
+                    sw_ = swco + 0.9 * (1.0 - swco - sn) * hw[hi] / 1000.0
+                    st_trip = [sw_, 1.0 - sw_ - sn, sn]
                 prog.append({"op": "update", "s": st_trip})
                 prog.append({"op": "hystparams"})
                 sns = sorted(set(grid + [sn, shy]))
